@@ -50,7 +50,8 @@ V2_POOL = [
     "mod c:macro 1 c.html#c.mod -",
     "same py:class 1 c.html#$ same",
     "two words std:label -1 t.html#tw two words",
-    "$HOME std:envvar 1 u.html#envvar-$$ -",  # only the LAST '$' is the name shorthand
+    "$HOME std:envvar 1 u.html#envvar-$$ -",
+    "HTTP status 404 errors std:label -1 e.html#$ -",  # Sphinx reads name 'HTTP', a colon-less type 'status', priority 404: skipped  # only the LAST '$' is the name shorthand
 ]
 V2_MUT = [
     "a py:function 1",
